@@ -154,6 +154,37 @@ impl<T> Mutex<T> {
 }
 
 impl<T> Mutex<T> {
+    /// See `std::sync::Mutex::try_lock`.
+    pub fn try_lock(&self) -> std::sync::TryLockResult<MutexGuard<'_, T>> {
+        shared_op("!mutex.lock");
+        match self.0.try_lock() {
+            Ok(g) => {
+                LOCK_DEPTH.with(|d| d.set(d.get() + 1));
+                Ok(MutexGuard(g))
+            }
+            Err(std::sync::TryLockError::Poisoned(p)) => {
+                LOCK_DEPTH.with(|d| d.set(d.get() + 1));
+                Err(std::sync::TryLockError::Poisoned(PoisonError::new(MutexGuard(p.into_inner()))))
+            }
+            Err(std::sync::TryLockError::WouldBlock) => Err(std::sync::TryLockError::WouldBlock),
+        }
+    }
+    /// See `std::sync::Mutex::is_poisoned`.
+    pub fn is_poisoned(&self) -> bool {
+        self.0.is_poisoned()
+    }
+    /// See `std::sync::Mutex::clear_poison`.
+    pub fn clear_poison(&self) {
+        self.0.clear_poison()
+    }
+    /// See `std::sync::Mutex::get_mut`.
+    pub fn get_mut(&mut self) -> LockResult<&mut T> {
+        self.0.get_mut()
+    }
+    /// See `std::sync::Mutex::into_inner`.
+    pub fn into_inner(self) -> LockResult<T> {
+        self.0.into_inner()
+    }
     /// Locks the mutex for observation: not a schedule point, and a poisoned
     /// mutex is entered nevertheless.
     pub fn raw_lock(&self) -> std::sync::MutexGuard<'_, T> {
@@ -224,6 +255,21 @@ impl Semaphore {
         shared_op("!sem.acquire");
         self.0.acquire().await
     }
+    /// See `tokio::sync::Semaphore::acquire_many`.
+    pub async fn acquire_many(
+        &self,
+        n: u32,
+    ) -> Result<tokio::sync::SemaphorePermit<'_>, tokio::sync::AcquireError> {
+        shared_op("!sem.acquire");
+        self.0.acquire_many(n).await
+    }
+    /// See `tokio::sync::Semaphore::forget_permits`.
+    pub fn forget_permits(&self, n: usize) -> usize {
+        shared_op("!sem.try_acquire");
+        self.0.forget_permits(n)
+    }
+    /// See `tokio::sync::Semaphore::MAX_PERMITS`.
+    pub const MAX_PERMITS: usize = tokio::sync::Semaphore::MAX_PERMITS;
     /// See `tokio::sync::Semaphore::close`.
     pub fn close(&self) {
         shared_op("!sem.close");
@@ -265,6 +311,69 @@ macro_rules! verif_atomic {
             pub fn fetch_sub(&self, v: $int, o: std::sync::atomic::Ordering) -> $int {
                 shared_op("!atomic.update");
                 self.0.fetch_sub(v, o)
+            }
+            /// See the std type; an implicit schedule point.
+            pub fn store(&self, v: $int, o: std::sync::atomic::Ordering) {
+                shared_op("!atomic.update");
+                self.0.store(v, o)
+            }
+            /// See the std type; an implicit schedule point.
+            pub fn swap(&self, v: $int, o: std::sync::atomic::Ordering) -> $int {
+                shared_op("!atomic.update");
+                self.0.swap(v, o)
+            }
+            /// See the std type; an implicit schedule point.
+            pub fn compare_exchange(
+                &self,
+                current: $int,
+                new: $int,
+                success: std::sync::atomic::Ordering,
+                failure: std::sync::atomic::Ordering,
+            ) -> Result<$int, $int> {
+                shared_op("!atomic.update");
+                self.0.compare_exchange(current, new, success, failure)
+            }
+            /// See the std type; an implicit schedule point.
+            pub fn compare_exchange_weak(
+                &self,
+                current: $int,
+                new: $int,
+                success: std::sync::atomic::Ordering,
+                failure: std::sync::atomic::Ordering,
+            ) -> Result<$int, $int> {
+                shared_op("!atomic.update");
+                self.0.compare_exchange_weak(current, new, success, failure)
+            }
+            /// See the std type; an implicit schedule point.
+            pub fn fetch_update<F>(
+                &self,
+                set_order: std::sync::atomic::Ordering,
+                fetch_order: std::sync::atomic::Ordering,
+                f: F,
+            ) -> Result<$int, $int>
+            where
+                F: FnMut($int) -> Option<$int>,
+            {
+                shared_op("!atomic.update");
+                self.0.fetch_update(set_order, fetch_order, f)
+            }
+            /// See the std type; an implicit schedule point.
+            pub fn fetch_max(&self, v: $int, o: std::sync::atomic::Ordering) -> $int {
+                shared_op("!atomic.update");
+                self.0.fetch_max(v, o)
+            }
+            /// See the std type; an implicit schedule point.
+            pub fn fetch_min(&self, v: $int, o: std::sync::atomic::Ordering) -> $int {
+                shared_op("!atomic.update");
+                self.0.fetch_min(v, o)
+            }
+            /// See the std type.
+            pub fn get_mut(&mut self) -> &mut $int {
+                self.0.get_mut()
+            }
+            /// See the std type.
+            pub fn into_inner(self) -> $int {
+                self.0.into_inner()
             }
             /// Reads the value for observation: not a schedule point.
             pub fn raw_load(&self) -> $int {
